@@ -1,7 +1,7 @@
 (* C12 -- verify accepts exactly what decrypt accepts; verify writes nothing.
    [ver] returns only a flag (no write action exists in the model); inputs are never written
    (the model has no write action on the input stream; the harness compares the input bytes). *)
-From Wencry Require Import Bytes FileModel FileSpec FileProps FileProofsSec.
+From Wencry Require Import Bytes FileModel FileSpec FileProps FileProofsSec FileProofsTotal.
 Local Open Scope N_scope.
 
 (* decrypt succeeds only if verify succeeds, and verify failing means decrypt fails -- every file, every key *)
@@ -20,3 +20,21 @@ Theorem C12_verdicts_coincide_on_domain : forall c hbuf T F key,
   (ver hbuf F key = Ok true \/ ver hbuf F key = Ok false).
 Proof. exact C12_verdicts_coincide_on_domain_proof. Qed.
 Print Assumptions C12_verdicts_coincide_on_domain.
+
+(* since the repairs of iobuffer::export_buffer and load_buffer: the two verdicts coincide for EVERY file and key *)
+Theorem C12_verdicts_coincide : forall c hbuf T F key,
+  (1 <= c)%nat -> (1 <= hbuf)%nat -> (1 <= T)%nat -> N.of_nat (length F) < 2 ^ 56 ->
+  (ver hbuf F key = Ok true <-> exists out, dec c hbuf T F key = Ok out) /\
+  (ver hbuf F key = Ok true \/ ver hbuf F key = Ok false).
+Proof. exact C12_verdicts_coincide_proof. Qed.
+Print Assumptions C12_verdicts_coincide.
+
+(* outside the earlier domain: authentic files whose last plaintext byte is not a pad length (200 > 32
+   bytes of body: nothing is written; 20: the write stops inside the first block), produced by no encryption *)
+Example C12_verdicts_coincide_beyond_enc :
+  verify 4 tot_F_badpad tot_key = Ok 0 /\
+  ver 4 tot_F_badpad tot_key = Ok true /\ dec 4 4 1 tot_F_badpad tot_key = Ok nil /\
+  (~ exists P seed cm hm, enc_params 4 4 1 P tot_key seed cm hm /\ enc 4 4 1 P tot_key cm hm seed = Ok tot_F_badpad) /\
+  ver 4 tot_F_pad20 tot_key = Ok true /\ dec 4 4 1 tot_F_pad20 tot_key = Ok (repeat 7 12) /\
+  (~ exists P seed cm hm, enc_params 4 4 1 P tot_key seed cm hm /\ enc 4 4 1 P tot_key cm hm seed = Ok tot_F_pad20).
+Proof. exact (proj2 (proj2 (proj2 (proj2 C12_verdicts_coincide_nonvacuous)))). Qed.
